@@ -255,7 +255,8 @@ impl TextSelection {
         if self.begin() >= container.begin() {
             let beginaligned = self.begin() - container.begin();
             let containerlen = container.end() as isize - container.begin() as isize;
-            Some(containerlen - beginaligned as isize)
+            //end-aligned cursors are zero or negative
+            Some(beginaligned as isize - containerlen)
         } else {
             None
         }
@@ -267,7 +268,8 @@ impl TextSelection {
         if self.end() <= container.end() {
             let beginaligned = self.end() - container.begin();
             let containerlen = container.end() as isize - container.begin() as isize;
-            Some(containerlen - beginaligned as isize)
+            //end-aligned cursors are zero or negative
+            Some(beginaligned as isize - containerlen)
         } else {
             None
         }
